@@ -17,49 +17,80 @@ Property theorems only (model: `SSVerif/Model/Fsg.lean`, mirroring `src/fsg_mode
 -/
 namespace SSVerif.Fsg
 
-/-! ## null-transition closure -/
+/-! ## null-transition closure
 
-/-- **Closure preserves the language.**  For every grammar whatsoever the closed grammar accepts
-exactly the same word sequences (this holds after any number of passes of the loop). -/
+The closure adds two log-probabilities in 64 bits and saturates the sum at the grammar's log-zero
+`g.logZero` (`logmath_get_zero`, `-2^29`; fix D51).  `ClosureWF g`: `NullWF g`, no null link below
+`g.logZero`, `g.logZero ≤ 0`.  `NoSat z g`: no *simple* null path of `g` weighs less than `z` —
+then saturation never touches a link that matters; a decidable sufficient condition is that all
+null log-probabilities together sum to at least `z` (`C13_noSat_of_total`). -/
+
+/-- **Closure preserves the language.**  For every grammar whatsoever (and every saturation
+point) the closed grammar accepts exactly the same word sequences, also over real words; this
+holds after any number of passes of the loop. -/
 theorem C13_closure_preserves_lang (g : Fsg) (ws : List Nat) : accepts (closure g) ws ↔ accepts g ws :=
-  (closure_ext g).accepts_iff ws
-
-/-- **Closure preserves the best probability** of every word sequence. -/
-theorem C13_closure_preserves_best (g : Fsg) (ws : List Nat) (v : Int) :
-    IsBest (closure g) ws v ↔ IsBest g ws v :=
-  (closure_ext g).isBest_iff ws v
+  (closure_lext g).accepts_iff ws
 
 /-- the same over real words (fillers dropped, alternates mapped to base words) -/
 theorem C13_closure_preserves_real (F : Nat → Bool) (B : Nat → Nat) (g : Fsg) (rs : List Nat) :
-    (acceptsReal F B (closure g) rs ↔ acceptsReal F B g rs) ∧
-    ∀ v, IsBestReal F B (closure g) rs v ↔ IsBestReal F B g rs v := by
-  have e := (closure_ext g).project F B
-  exact ⟨by rw [acceptsReal_iff_project, acceptsReal_iff_project]; exact e.accepts_iff rs,
-         fun v => by rw [isBestReal_iff_project, isBestReal_iff_project]; exact e.isBest_iff rs v⟩
+    acceptsReal F B (closure g) rs ↔ acceptsReal F B g rs := by
+  rw [acceptsReal_iff_project, acceptsReal_iff_project]
+  exact ((closure_lext g).project F B).accepts_iff rs
+
+/-- **Closure preserves the best probability** of every word sequence (and of every real-word
+sequence), provided no simple null path is below log-zero.  Without that proviso the closure can
+only raise a best probability, and only by replacing a null path less probable than log-zero
+(probability zero for `logmath`) by a link at log-zero. -/
+theorem C13_closure_preserves_best (g : Fsg) (h : ClosureWF g) (hn : NoSat g.logZero g) :
+    (∀ ws v, IsBest (closure g) ws v ↔ IsBest g ws v) ∧
+    (∀ F B rs v, IsBestReal F B (closure g) rs v ↔ IsBestReal F B g rs v) := by
+  have e := closure_ext h hn
+  exact ⟨fun ws v => e.isBest_iff ws v,
+         fun F B rs v => by rw [isBestReal_iff_project, isBestReal_iff_project]; exact (e.project F B).isBest_iff rs v⟩
+
+/-- unconditionally the closure never lowers anything: every path of `g` has a path of `closure g`
+on the same words that is at least as probable -/
+theorem C13_closure_never_lowers (g : Fsg) (ws : List Nat) (v : Int) (r : Run g g.start ws v g.final) :
+    ∃ v', v ≤ v' ∧ Run (closure g) (closure g).start ws v' (closure g).final := by
+  have l := closure_lext g
+  rw [l.start, l.final]
+  exact r.dom l.dom
+
+/-- `NoSat` holds when the null log-probabilities of the grammar sum to at least `z` -/
+theorem C13_noSat_of_total (z : Int) (g : Fsg) (h0 : NullLe0 g) (hz : z ≤ ((nullLinks g).map (·.logp)).sum) :
+    NoSat z g :=
+  noSat_of_total h0 hz
 
 /-- **The closure loop terminates**: the `do … while (updated)` loop of
 `fsg_model_null_trans_closure` makes at most `closureFuel g` = (number of null links) + 1 passes —
 the model's fuel is never exhausted — and what it returns is a fixpoint (`NullClosed`: relaxing
-any two consecutive null links changes nothing), whatever the chains and cycles. -/
-theorem C13_closure_terminates (g : Fsg) (h : NullWF g) :
-    (closureRun g).2.2 = true ∧ NullClosed (closure g) ∧ NullWF (closure g) :=
-  ⟨(closureRun_converges h).1, (closureRun_converges h).2, nullWF_closure h⟩
+any two consecutive null links, with saturation, changes nothing), whatever the chains and cycles,
+saturating or not. -/
+theorem C13_closure_terminates (g : Fsg) (h : ClosureWF g) :
+    (closureRun g).2.2 = true ∧ NullClosed (closure g) ∧ ClosureWF (closure g) :=
+  ⟨(closureRun_converges h).1, closure_closed h, closureWF_closure h⟩
 
 /-- **Closing twice changes nothing further**, and more generally a closed grammar is returned as
 it is (same links in the same order, same everything). -/
-theorem C13_closure_idempotent (g : Fsg) (h : NullWF g) :
+theorem C13_closure_idempotent (g : Fsg) (h : ClosureWF g) :
     closure (closure g) = closure g ∧ ∀ g', NullClosed g' → closure g' = g' :=
   ⟨closure_idem h, fun _ hc => closure_of_closed hc⟩
 
 /-- **What the closure computes, independently of the iteration order.**  The closed grammar has
-a null link `a → c` with log-probability `v` exactly when `a ≠ c` and `v` is the best weight of a
-null path from `a` to `c` in the input; its non-null links and all other fields are the input's.
+a null link `a → c` with log-probability `v` exactly when `a ≠ c`, a null path from `a` to `c`
+exists in the input and `v` is the best weight of such a path floored at log-zero
+(`IsSatBestNull`, which determines `v`: `C13_satBest_unique`); its non-null links and all other
+fields are the input's.  Under `NoSat` the floor plays no role and `v` is the best weight itself.
 (The C code iterates hash tables in an order the model does not reproduce; by this theorem the
 result is the same set of arcs for every order.) -/
-theorem C13_closure_unique (g : Fsg) (h : NullWF g) :
-    (∀ a c v, nullLookup (closure g) a c = some v ↔ a ≠ c ∧ IsBestNull g a c v) ∧
+theorem C13_closure_unique (g : Fsg) (h : ClosureWF g) :
+    (∀ a c v, nullLookup (closure g) a c = some v ↔ a ≠ c ∧ IsSatBestNull g.logZero g a c v) ∧
+    (NoSat g.logZero g → ∀ a c v, nullLookup (closure g) a c = some v ↔ a ≠ c ∧ IsBestNull g a c v) ∧
     (nullKeys (closure g)).Nodup ∧ SameButNulls g (closure g) :=
-  ⟨closure_lookup_iff h, (nullWF_closure h).uniq, closure_same g⟩
+  ⟨closure_lookup_iff h, fun hn => closure_lookup_iff_noSat h hn, (nullWF_closure h).uniq, closure_same g⟩
+
+theorem C13_satBest_unique (z : Int) (g : Fsg) (a c : Nat) (v v' : Int)
+    (h : IsSatBestNull z g a c v) (h' : IsSatBestNull z g a c v') : v = v' := h.unique h'
 
 /-! ## silence / filler self-loops and alternates -/
 
@@ -93,16 +124,22 @@ theorem C13_addAlt_preserves_base (F : Nat → Bool) (B : Nat → Nat) (g : Fsg)
   exact ⟨by rw [acceptsReal_iff_project, acceptsReal_iff_project]; exact e.accepts_iff rs,
          fun v => by rw [isBestReal_iff_project, isBestReal_iff_project]; exact e.isBest_iff rs v⟩
 
-/-- every operation of the API keeps the invariant `NullWF`, and the empty grammar has it -/
-theorem C13_nullWF_api :
-    (∀ name n s f, NullWF (Fsg.init name n s f)) ∧
-    (∀ g a c lp w, NullWF g → NullWF (transAdd g a c lp w)) ∧
+/-- every operation of the API keeps the invariants `NullWF` and `NullGe z` (no null link below
+`z`), and the empty grammar has them -/
+theorem C13_nullWF_api (z : Int) :
+    (∀ name n s f z', NullWF (Fsg.init name n s f z') ∧ NullGe z (Fsg.init name n s f z')) ∧
+    (∀ g a c lp w, NullWF g → NullWF (transAdd g a c lp w)) ∧ (∀ g a c lp w, NullGe z g → NullGe z (transAdd g a c lp w)) ∧
     (∀ g a c lp, NullWF g → lp ≤ 0 → NullWF (nullAdd g a c lp).1) ∧
-    (∀ g, NullWF g → NullWF (closure g)) ∧
+    (∀ g a c lp, NullGe z g → z ≤ lp → NullGe z (nullAdd g a c lp).1) ∧
+    (∀ g, ClosureWF g → ClosureWF (closure g)) ∧
     (∀ g word st lp, NullWF g → NullWF (addSilence g word st lp).1) ∧
-    (∀ g b a, NullWF g → NullWF (addAlt g b a).1) :=
-  ⟨nullWF_init, fun _ a c lp w h => nullWF_transAdd h a c lp w, fun _ a c _ h hl => nullWF_nullAdd h a c hl,
-   fun _ h => nullWF_closure h, fun _ w st lp h => nullWF_addSilence h w st lp, fun _ b a h => nullWF_addAlt h b a⟩
+    (∀ g word st lp, NullGe z g → NullGe z (addSilence g word st lp).1) ∧
+    (∀ g b a, NullWF g → NullWF (addAlt g b a).1) ∧ (∀ g b a, NullGe z g → NullGe z (addAlt g b a).1) :=
+  ⟨fun name n s f z' => ⟨nullWF_init name n s f z', fun _ h => (by cases h)⟩,
+   fun _ a c lp w h => nullWF_transAdd h a c lp w, fun _ a c lp w h => nullGe_transAdd h a c lp w,
+   fun _ a c _ h hl => nullWF_nullAdd h a c hl, fun _ a c _ h hl => nullGe_nullAdd h a c hl,
+   fun _ h => closureWF_closure h, fun _ w st lp h => nullWF_addSilence h w st lp,
+   fun _ w st lp h => nullGe_addSilence h w st lp, fun _ b a h => nullWF_addAlt h b a, fun _ b a h => nullGe_addAlt h b a⟩
 
 /-! ## FSG text files -/
 
@@ -116,7 +153,7 @@ strings, word ids are renumbered in order of appearance —: every arc of `g'` i
 with probability `q logp`, every arc of `g` (from a state in range, null self-loops excepted) is
 in `g'` with probability `q logp` or, when `g` had several arcs with that label between the same
 states, the highest of them.  The closure the reader applies does not change language or best
-probabilities (`C13_closure_preserves_*`). -/
+probabilities beyond what `C13_closure_preserves_lang` / `_best` state. -/
 theorem C13_write_read_roundtrip (C : Codec) (q : Int → Int) (g : Fsg) (law : CodecLaw C q g) (wf : FileWF g) :
     ∃ g', read C (write C g) = .ok (closure g') ∧
       g'.nState = g.nState ∧ g'.start = g.start ∧ g'.final = g.final ∧
@@ -155,7 +192,10 @@ def ex1 : Fsg :=
     links := [⟨2, 3, -7, some 0⟩, ⟨2, 2, -1, some 1⟩, ⟨0, 2, -9, none⟩, ⟨2, 0, -1, none⟩, ⟨1, 2, -3, none⟩,
               ⟨0, 1, -2, none⟩] }
 
-private theorem ex1_wf : NullWF ex1 := ⟨by unfold NullLe0; decide, by decide, by decide⟩
+private theorem ex1_wf : ClosureWF ex1 := ⟨⟨by unfold NullLe0; decide, by decide, by decide⟩, by unfold NullGe; decide, by decide⟩
+
+-- nothing saturates in ex1: its null log-probabilities sum to -15 ≥ -2^29
+private theorem ex1_noSat : NoSat ex1.logZero ex1 := C13_noSat_of_total _ ex1 (by unfold NullLe0; decide) (by decide)
 
 -- the closure raises 0 → 2 from -9 to -5 (through 1) and adds 1 → 0, 2 → 1 in two passes + a quiet one
 example : closureRun ex1 =
@@ -163,8 +203,17 @@ example : closureRun ex1 =
                           ⟨2, 0, -1, none⟩, ⟨1, 2, -3, none⟩, ⟨0, 1, -2, none⟩] },
      [(1, 0), (2, 1), (0, 2), (2, 0), (1, 2), (0, 1)], true) := by decide
 
+/-- saturation (D51): with log-zero at -10 the chain 0 → 1 → 2 of weight -12 becomes a link at -10 -/
+def ex2 : Fsg :=
+  { nState := 3, start := 0, final := 2, logZero := -10, links := [⟨1, 2, -6, none⟩, ⟨0, 1, -6, none⟩] }
+
+example : ClosureWF ex2 := ⟨⟨by unfold NullLe0; decide, by decide, by decide⟩, by unfold NullGe; decide, by decide⟩
+example : (closure ex2).links = [⟨0, 2, -10, none⟩, ⟨1, 2, -6, none⟩, ⟨0, 1, -6, none⟩] := by decide
+-- ... which the uniqueness theorem describes: -10 is the best weight (-12) floored at -10
+example : nullLookup (closure ex2) 0 2 = some (-10) := by decide
+
 -- "stop go" is accepted with best log-probability -5 + -1 + -7 after the closure, -2 + -3 + -1 + -7 before
-example : IsBest ex1 [1, 0] (-13) ↔ IsBest (closure ex1) [1, 0] (-13) := (C13_closure_preserves_best ex1 [1, 0] (-13)).symm
+example : IsBest ex1 [1, 0] (-13) ↔ IsBest (closure ex1) [1, 0] (-13) := ((C13_closure_preserves_best ex1 ex1_wf ex1_noSat).1 [1, 0] (-13)).symm
 
 example : accepts ex1 [1, 0] :=
   ⟨_, .eps (l := ⟨0, 1, -2, none⟩) (by decide) rfl (.eps (l := ⟨1, 2, -3, none⟩) (by decide) rfl
@@ -200,7 +249,7 @@ def exParseInt (s : String) : Option Int :=
 def exCodec : Codec := { showN := toString, parseN := exParseInt, printP := toString, parseP := exParseInt }
 
 example : CodecLaw exCodec id ex1 ∧ FileWF ex1 :=
-  ⟨⟨by decide, by decide⟩, ⟨by decide, by decide, by decide, by decide⟩⟩
+  ⟨⟨by decide, by decide, by decide⟩, ⟨by decide, by decide, by decide, by decide⟩⟩
 
 -- the file of ex1 and what is read back (closed, since ex1 is not): 6 arcs written, 8 after the reader's closure
 example : (write exCodec ex1).length = 11 ∧
